@@ -2,7 +2,7 @@
 From Coq Require Import ZArith List Bool.
 From HV Require Import Prelude.Py Prelude.State Prelude.Utf8 Spec.IntRep Spec.HuffmanCode Spec.DynTable Spec.SDecoder.
 From HV Require Import Model.Data Model.Decoder Model.Rel.
-From HV Require Import Proofs.Table Proofs.DecoderRefine Proofs.SpecDecoder.
+From HV Require Import Proofs.Table Proofs.DecoderRefine Proofs.SpecDecoder Proofs.DecoderMeaning.
 Import ListNotations.
 Open Scope Z_scope.
 
